@@ -1474,6 +1474,8 @@ fn serde_slice(rep: &mut Report, seed: u64, scale: u64) {
                 want.sort_unstable();
                 want.dedup();
                 assert_eq!(got, want, "deserialize_in_place did not replace the previous contents exactly");
+                assert!(want.iter().all(|k| dst.contains(k) && dst.get(k) == Some(k)), "deserialize_in_place: an element that is iterated is not found by lookup");
+                assert!(want.iter().take(3).all(|k| !dst.insert(*k)), "deserialize_in_place: an element that is there could be inserted again");
                 let d2: PS = PS::deserialize(mini_de::Seq { items: keys, hint }).unwrap();
                 assert_eq!(d2.len(), want.len());
             }));
